@@ -114,6 +114,12 @@ def main(argv):
             print("HARNESS ERROR: %s loaded from %s, not from %s" % (m.__name__, m.__file__, bdir))
             return 2
 
+    import hydrodiy
+    repo = os.environ.get("VERIF_REPO", "/repo")
+    if not os.path.realpath(hydrodiy.__file__).startswith(os.path.realpath(repo) + os.sep):
+        print("HARNESS ERROR: hydrodiy imported from %s, not from %s" % (hydrodiy.__file__, repo))
+        return 2
+
     if a.replay:
         with open(a.replay) as f:
             body = json.load(f)
@@ -205,6 +211,10 @@ def main(argv):
     if not cov["samples"]:
         cov["samples"] = ["(no case executed)"]
     evpath = os.path.join(VERIF, "evidence", "%s.json" % pid)
+    if os.path.realpath(repo) != "/repo" or filtered:
+        # scratch worktree / filtered debug run: never overwrite the real evidence
+        evpath = os.path.join(VERIF, "build", "evidence-scratch", "%s.json" % pid)
+        os.makedirs(os.path.dirname(evpath), exist_ok=True)
     try:
         validate_evidence(ev)
     except Exception as e:      # schema failure = harness failure
